@@ -325,6 +325,16 @@ theorem rel_refl (c : Chan) (I : List Item) : Rel c [] I I where
     intro h t _ _
     simp [Chain.chanF, h]
 
+theorem rel_nil (c : Chan) (T : Chain) : Rel c T [] [] where
+  empty := Iff.rfl
+  dur := rfl
+  win := List.Perm.refl _
+  pres := by simp [allPres, itemsNodes, allLeavesList]
+  samp := by
+    intro _ t h0 ht
+    simp [itemsDur, itemsNodes, Loop.durationList] at ht
+    exact absurd ht (by grind)
+
 /-- `A = (T₁ ++ T₂)·B` and `C = T₁·B` give `A = T₂·C` -/
 theorem rel_div (c : Chan) (T₁ T₂ : Chain) (A B C : List Item)
     (h1 : Rel c (T₁ ++ T₂) A B) (h2 : Rel c T₁ C B) : Rel c T₂ A C where
@@ -735,11 +745,7 @@ theorem rel_rep (c : Chan) (T : Chain) (n : Nat) (ms : List Window) (I I' : List
   by_cases hn : itemsNodes I = []
   · have hn' := h.empty.mp hn
     simp only [hn, hn', List.isEmpty_nil, if_true]
-    exact rel_refl c [] |> fun r => by
-      exact ⟨Iff.rfl, rfl, List.Perm.refl _, by simp [allPres, itemsNodes, allLeavesList], by
-        intro _ t h0 ht
-        simp [itemsDur, itemsNodes, Loop.durationList] at ht
-        exact absurd ht (by grind)⟩
+    exact rel_nil c T
   · have hn' : itemsNodes I' ≠ [] := fun e => hn (h.empty.mpr e)
     have e1 : (itemsNodes I).isEmpty = false := by simpa using hn
     have e2 : (itemsNodes I').isEmpty = false := by simpa using hn'
